@@ -531,34 +531,47 @@ def clientRecv (reqId : Int) (pkg : Bytes) : Except String RspPacket :=
         else if p.iRequestId = reqId then .ok p
         else .error "response for another request"
 
-/-- `ServantProxy.doInvoke` over one fresh TCP connection to a server running `serverHandle`:
-    `adp.Send(msg.Req)`, one-way → nil at once; otherwise wait for the response (`msg.Resp`, the
-    state of this computation) and map it to an error. The server's events are part of the trace. -/
-def doInvoke (vs : Variants) (env : Env) (cfg : Cfg) (sreg : ServerReg) (iface : Iface)
-    (req : ReqPacket) : Comp Ev RspPacket DoRes := fun resp =>
-  let sent := requestPack req
-  match recvFirst cfg.maxLen sent with
-  | .less => ([], .timeout "server: incomplete package", resp)
-  | .error => ([], .timeout "server: package error, connection closed", resp)
-  | .pkg pkg =>
-    let (tr, sres) := serverHandle vs env sreg iface pkg
+/-- `doInvoke` once the client's receive loop has looked at the bytes the server wrote:
+    `AdapterProxy.Recv` delivers the packet to the waiting call, which maps it to an error -/
+def awaitReply (vs : Variants) (reqId : Int) (tr : List Ev) (resp : RspPacket) :
+    Recv → List Ev × DoRes × RspPacket
+  | .less => (tr, .timeout "client: incomplete package", resp)
+  | .error => (tr, .timeout "client: package error, connection closed", resp)
+  | .pkg rpkg =>
+    match clientRecv reqId rpkg with
+    | .error why => (tr, .timeout why, resp)
+    | .ok p =>
+      match clientErr vs.emptyDesc p.iRet p.sResultDesc with
+      | some e => (tr, .err e, p)
+      | none => (tr, .nil, p)
+
+/-- `doInvoke` after `adp.Send`: a one-way call returns nil at once; otherwise the call waits for
+    what the server does with the package -/
+def afterServer (vs : Variants) (cfg : Cfg) (req : ReqPacket) (resp : RspPacket) :
+    List Ev × ServerRes → List Ev × DoRes × RspPacket
+  | (tr, sres) =>
     if req.cPacketType = cpTARSONEWAY then (tr, .nil, resp)
     else
       match sres with
       | .silent => (tr, .timeout "no response written", resp)
       | .panicked _ => (tr, .timeout "server panicked", resp)
       | .notModelled what => (tr, .notModelled what, resp)
-      | .reply frame =>
-        match recvFirst cfg.maxLen frame with
-        | .less => (tr, .timeout "client: incomplete package", resp)
-        | .error => (tr, .timeout "client: package error, connection closed", resp)
-        | .pkg rpkg =>
-          match clientRecv req.iRequestId rpkg with
-          | .error why => (tr, .timeout why, resp)
-          | .ok p =>
-            match clientErr vs.emptyDesc p.iRet p.sResultDesc with
-            | some e => (tr, .err e, p)
-            | none => (tr, .nil, p)
+      | .reply frame => awaitReply vs req.iRequestId tr resp (recvFirst cfg.maxLen frame)
+
+/-- what the server's receive loop makes of the bytes of the request -/
+def afterSend (vs : Variants) (env : Env) (cfg : Cfg) (sreg : ServerReg) (iface : Iface)
+    (req : ReqPacket) (resp : RspPacket) : Recv → List Ev × DoRes × RspPacket
+  | .less => ([], .timeout "server: incomplete package", resp)
+  | .error => ([], .timeout "server: package error, connection closed", resp)
+  | .pkg pkg => afterServer vs cfg req resp (serverHandle vs env sreg iface pkg)
+
+/-- `ServantProxy.doInvoke` over one fresh TCP connection to a server running `serverHandle`:
+    `adp.Send(msg.Req)` (`RequestPack`, the bytes reach the server's receive loop), one-way → nil at
+    once; otherwise wait for the response (`msg.Resp`, the state of this computation) and map it
+    to an error. The server's events are part of the trace. -/
+def doInvoke (vs : Variants) (env : Env) (cfg : Cfg) (sreg : ServerReg) (iface : Iface)
+    (req : ReqPacket) : Comp Ev RspPacket DoRes := fun resp =>
+  afterSend vs env cfg sreg iface req resp (recvFirst cfg.maxLen (requestPack req))
 
 /-- what the caller holds after the proxy function returned -/
 structure CallerView where
@@ -639,6 +652,17 @@ def proxyRequest (env : Env) (cfg : Cfg) (fn : Bytes) (sig : Sig) (oneway : Bool
 def view0 (env : Env) (sig : Sig) (args : List Val) (opts : List (Option StrMap)) : CallerView :=
   ⟨sig.ret.map (zeroOf env), outVals sig.params args, (optsMaps opts).1, (optsMaps opts).2⟩
 
+/-- the generated proxy function after `TarsInvoke` returned `(err, *resp)` -/
+def proxyAfter (env : Env) (sig : Sig) (oneway : Bool) (args : List Val)
+    (opts : List (Option StrMap)) : List Ev × DoRes × RspPacket → List Ev × Result
+  | (tr, .err e, _) => (tr, .returned (some e) (view0 env sig args opts))
+  | (tr, .timeout why, _) => (tr, .timeout why)
+  | (tr, .notModelled what, _) => (tr, .notModelled what)
+  | (tr, .nil, resp) =>
+    -- `*resp = *msg.Resp`
+    if oneway then (tr, .returned none (view0 env sig args opts))
+    else (tr, proxyFinish env sig args opts resp)
+
 /-- A call through the generated proxy function `<fn>WithContext` (`oneway = false`) or
     `<fn>OneWayWithContext` (`oneway = true`) for the interface function `(fn, sig)`:
     `args` are the values of ALL parameters (for an out parameter: what the caller's variable holds
@@ -647,16 +671,10 @@ def view0 (env : Env) (sig : Sig) (args : List Val) (opts : List (Option StrMap)
 def callWith (vs : Variants) (env : Env) (cfg : Cfg) (creg : ClientReg) (sreg : ServerReg)
     (iface : Iface) (fn : Bytes) (sig : Sig) (oneway : Bool) (args : List Val)
     (opts : List (Option StrMap)) : List Ev × Result :=
-  let req := proxyRequest env cfg fn sig oneway args opts
-  -- TarsInvoke: filters around doInvoke; `msg.Resp` starts as the proxy's `tarsResp`
-  match runClient DoRes.nil creg (doInvoke vs env cfg sreg iface req) RspPacket.zero with
-  | (tr, .err e, _) => (tr, .returned (some e) (view0 env sig args opts))
-  | (tr, .timeout why, _) => (tr, .timeout why)
-  | (tr, .notModelled what, _) => (tr, .notModelled what)
-  | (tr, .nil, resp) =>
-    -- `*resp = *msg.Resp`
-    if oneway then (tr, .returned none (view0 env sig args opts))
-    else (tr, proxyFinish env sig args opts resp)
+  proxyAfter env sig oneway args opts
+    -- TarsInvoke: filters around doInvoke; `msg.Resp` starts as the proxy's `tarsResp`
+    (runClient DoRes.nil creg
+      (doInvoke vs env cfg sreg iface (proxyRequest env cfg fn sig oneway args opts)) RspPacket.zero)
 
 /-- no filters registered on either side, current code -/
 def call (env : Env) (cfg : Cfg) (iface : Iface) (fn : Bytes) (sig : Sig) (oneway : Bool)
